@@ -243,6 +243,50 @@ pub fn duration_packet(variant: &str, path: &str, d: Duration) -> Option<Packet>
     })
 }
 
+
+/// the same field set on a packet that already holds other values (its "surroundings"); `base` must be of the named kind
+pub fn duration_packet_in(base: Packet, path: &str, d: Duration) -> Option<Packet> {
+    macro_rules! set {
+        ($v:ident, $p:ident, $f:ident) => {{
+            let mut $p = $p;
+            $p.$f = d;
+            Packet::$v($p)
+        }};
+    }
+    Some(match (base, path) {
+        (Packet::Isi(p), "interval") => set!(Isi, p, interval),
+        (Packet::Cpp(p), "time") => set!(Cpp, p, time),
+        (Packet::Con(p), "time") => set!(Con, p, time),
+        (Packet::Obh(p), "time") => set!(Obh, p, time),
+        (Packet::Hlv(p), "time") => set!(Hlv, p, time),
+        (Packet::Lap(p), "ltime") => set!(Lap, p, ltime),
+        (Packet::Lap(p), "etime") => set!(Lap, p, etime),
+        (Packet::Spx(p), "stime") => set!(Spx, p, stime),
+        (Packet::Spx(p), "etime") => set!(Spx, p, etime),
+        (Packet::Psf(p), "stime") => set!(Psf, p, stime),
+        (Packet::Fin(p), "ttime") => set!(Fin, p, ttime),
+        (Packet::Fin(p), "btime") => set!(Fin, p, btime),
+        (Packet::Res(p), "ttime") => set!(Res, p, ttime),
+        (Packet::Res(p), "btime") => set!(Res, p, btime),
+        (Packet::Rip(p), "ctime") => set!(Rip, p, ctime),
+        (Packet::Rip(p), "ttime") => set!(Rip, p, ttime),
+        (Packet::Uco(p), "time") => set!(Uco, p, time),
+        (Packet::Csc(p), "time") => set!(Csc, p, time),
+        (Packet::Small(p), sub) => {
+            let subt = match sub {
+                "Ssp" => SmallType::Ssp(d),
+                "Ssg" => SmallType::Ssg(d),
+                "Stp" => SmallType::Stp(d),
+                "Rtp" => SmallType::Rtp(d),
+                "Nli" => SmallType::Nli(d),
+                _ => return None,
+            };
+            Packet::Small(Small { reqi: p.reqi, subt })
+        },
+        _ => return None,
+    })
+}
+
 /// the two packets that carry a race length: (variant, byte offset of the field)
 pub const RACELAPS_FIELDS: &[(&str, usize)] = &[("Sta", 17), ("Rst", 4)];
 
